@@ -433,6 +433,20 @@ func (r *Runner) finalChecks() {
 			continue
 		}
 		r.feat("aborted-by-restore")
+		// the claim is made "after Restore returns nil": the restore that
+		// aborted this call must have completed (a leader that crashes or is
+		// deposed before its restore commits leaves the aborted entries in
+		// the logs, and the next leader may commit them)
+		confirmed := false
+		for _, ro := range r.Ops {
+			if ro.Kind == "restore" && ro.Done && ro.err == nil && ro.inst == op.inst && ro.InvokeSeq <= op.ReturnSeq && op.ReturnSeq <= ro.ReturnSeq {
+				confirmed = true
+			}
+		}
+		if !confirmed {
+			r.feat("aborted-by-a-restore-that-did-not-complete")
+			continue
+		}
 		for _, id := range r.ids {
 			in := w.Servers[id].Inst
 			if in == nil || in.DeadLocked() || !member[id] {
